@@ -257,11 +257,13 @@ FIELDS = {
                _env_lists(ENV_ATOMS, True) +
                _env_lists(ENV_BLANK, False)[1:] +
                _env_lists(ENV_EXTRA, False)[1:]),
-    # `both.log` in both: stdout and stderr described as the same file
-    'stdout': (['', 'my.out', 'ABS', 'both.log'],
-               ['', 'my.out', 'ABS', 'both.log'], None),
-    'stderr': (['', 'my.err', 'ABS', 'both.log'],
-               ['', 'my.err', 'ABS', 'both.log'], None),
+    'stdout': (['', 'my.out', 'ABS'], ['', 'my.out', 'ABS'], None),
+    'stderr': (['', 'my.err', 'ABS'], ['', 'my.err', 'ABS'], None),
+    # stdout and stderr described as the same file (relative / absolute
+    # name; overrides the two fields above): ONE field, so that it is paired
+    # with every other field (exit code, pre/post failures, ranks, ...)
+    'outerr': ([None, 'same-rel', 'same-abs'],
+               [None, 'same-rel', 'same-abs'], None),
     'pre'   : (PRE_CORE,  PRE_FULL,  None),
     'post'  : (POST_CORE, POST_FULL, None),
     # number of GPUs per rank (ids per rank: GPU_MAP) or a named id pattern
@@ -281,13 +283,13 @@ BASE = {'lm': 'FORK', 'ranks': 1,
         'exe': 'abs', 'args': ['a'], 'env': [], 'stdout': '', 'stderr': '',
         'pre': ['mark:A'], 'post': ['mark:Z'], 'gpus': 0, 'cpr': 1,
         'sync': False, 'exit': 0, 'name': None, 'sbox': 'in',
-        'start': 'popen', 'startup': 0}
+        'start': 'popen', 'startup': 0, 'outerr': None}
 
 # fields whose effect depends on the rank or on the number of ranks (per-rank
 # switches, barrier, start-up notice by rank 0, exit status of several ranks,
 # output streams shared by the ranks)
 RANK_FIELDS = ('pre', 'post', 'gpus', 'sync', 'startup', 'exit',
-               'stdout', 'stderr')
+               'stdout', 'stderr', 'outerr')
 
 # quick tier, several ranks: argument / environment values which enter the
 # products of field pairs (all values are still varied alone)
@@ -640,6 +642,12 @@ class World(object):
 
         out_td, out_file = std(case['stdout'], 'out')
         err_td, err_file = std(case['stderr'], 'err')
+
+        if case['outerr'] == 'same-rel':
+            out_td,   err_td   = 'both.log', 'both.log'
+            out_file, err_file = ('%s/both.log' % sbox,) * 2
+        elif case['outerr'] == 'same-abs':
+            out_td = err_td = out_file = err_file = '%s/both.log' % self.files
 
         return {'sbox': sbox, 'exe': exe, 'exe_file': exe_file,
                 'stdout': out_td, 'stdout_file': out_file,
@@ -1110,10 +1118,15 @@ def check(world, case, obs):
                 continue
         if got is None:
             fail('%s-file' % which, '%s does not exist (described: %r)'
-                                    % (p[which + '_file'], case[which]))
+                                    % (p[which + '_file'], p[which]))
             continue
-        if which == 'stderr' and expect_fail:
-            ok = all(got.count(w) == 1 for w in want)
+        if expect_fail and (which == 'stderr' or
+                            p['stdout_file'] == p['stderr_file']):
+            # the file also holds the '<sig> failed' notice of rp_error:
+            # the probe's lines, each once, and no other probe line
+            ok = all(got.count(w) == 1 for w in want) and \
+                 not [g for g in got if g.startswith(('OUT:', 'ERR:'))
+                                     and g not in want]
         else:
             ok = sorted(got) == sorted(want)
         if not ok:
@@ -1539,8 +1552,8 @@ def run(ctx):
                  'trailing / only blanks%s), '
                  'environment (none, singles and pairs of %d values, a value '
                  'with two blanks, one with a tab%s), '
-                 'stdout / stderr (default, relative, absolute, one file '
-                 'for both), pre_exec '
+                 'stdout / stderr (default, relative, absolute), one file '
+                 'for both streams (relative, absolute), pre_exec '
                  '(%d lists: none, true, export, false, marks, per-rank '
                  'dicts for 3 ranks with first == last != middle content, '
                  'dicts with str / int keys, list values, partial, mixed), '
